@@ -57,7 +57,7 @@ TRUSTED_BASE = [
     "OCaml glue in ocaml/*.ml (decimal<->N conversion through zarith, trace parsing, comparison)",
     "Rust harness (harness/): generators, tracking global allocator, --cfg bumpalo_verif hooks in /repo",
     "tools/bvlib.py (this orchestrator) and tools/gen_actual.py (constants/tables read from the built crate)",
-    "tools/rs2v.py (parser of the leaf functions, of located expressions inside the arena's and the collections' functions, of two loops as statement programs, and of pinned statements compared as whitespace-free text, into RustSem terms; their meaning is the Coq functions RustSem.eval / RustSem.exec, whose reading of Rust's usize/Option/pointer operations, assignments, loops and closure calls is trusted) and tools/sigfacts.py (textual reading of the public signatures); tools/lossyprog.py (parser of the lossy decoder's loop body into a Utf8Prog.lprog value whose meaning is the Coq function run_prog)",
+    "tools/rs2v.py (parser of the leaf functions, of located expressions inside the arena's and the collections' functions, of eight loops / function bodies as statement programs (with early return, scripted closure answers and panics), and of pinned statements compared as whitespace-free text, into RustSem terms; their meaning is the Coq functions RustSem.eval / RustSem.exec, whose reading of Rust's usize/Option/pointer operations, assignments, loops and closure calls is trusted) and tools/sigfacts.py (textual reading of the public signatures); tools/lossyprog.py (parser of the lossy decoder's loop body into a Utf8Prog.lprog value whose meaning is the Coq function run_prog)",
     "not modelled: rustc/LLVM code generation, pointer provenance, real memcpy, the system allocator, the hardware memory model",
 ]
 
